@@ -38,6 +38,7 @@ pub enum Kind {
     Close,
     Lseek,
     Ftruncate,
+    Sleep,
 }
 
 impl Kind {
@@ -52,6 +53,7 @@ impl Kind {
             Kind::Close => "close",
             Kind::Lseek => "lseek",
             Kind::Ftruncate => "ftruncate",
+            Kind::Sleep => "sleep",
         }
     }
     pub fn from_name(s: &str) -> Option<Kind> {
@@ -65,6 +67,7 @@ impl Kind {
             "close" => Kind::Close,
             "lseek" => Kind::Lseek,
             "ftruncate" => Kind::Ftruncate,
+            "sleep" => Kind::Sleep,
             _ => return None,
         })
     }
@@ -88,8 +91,9 @@ pub struct Fault {
 
 /// Callback for scheduling points: called *before* the call is executed.
 pub trait IoSched {
-    /// `ino` identifies the file (for flock modelling); the callback may block.
-    fn io_point(&self, kind: Kind, fd: i32, ino: u64, arg: i64);
+    /// `ino` identifies the file (for flock modelling); the callback may block.  A returned errno
+    /// makes the call fail with it instead of being executed (an interrupted blocking call).
+    fn io_point(&self, kind: Kind, fd: i32, ino: u64, arg: i64) -> Option<i32>;
     /// called after a call that changes lock state completed (flock / close)
     fn io_done(&self, kind: Kind, fd: i32, ino: u64, arg: i64, ok: bool);
 }
@@ -191,7 +195,9 @@ fn pre(kind: Kind, fd: c_int, arg: i64) -> Decision {
         .ok()
         .flatten();
     if let Some(s) = sched {
-        s.io_point(kind, fd, fd_ino(fd), arg);
+        if let Some(e) = s.io_point(kind, fd, if fd >= 0 { fd_ino(fd) } else { 0 }, arg) {
+            return Decision::Fail(e);
+        }
     }
     PLAN.try_with(|c| {
         let mut b = match c.try_borrow_mut() {
@@ -217,7 +223,13 @@ fn pre(kind: Kind, fd: c_int, arg: i64) -> Decision {
         p.calls += 1;
         p.call_kinds.push(kind);
         if let Some(f) = p.fault {
-            if f.call_index == idx && !p.fault_fired {
+            // call_index >= 1000 selects the (call_index - 1000)-th fsync instead of an absolute position
+            let hit = if f.call_index >= 1000 {
+                kind == Kind::Fsync && p.call_kinds.iter().filter(|k| **k == Kind::Fsync).count() as u64 == f.call_index - 1000 + 1
+            } else {
+                f.call_index == idx
+            };
+            if hit && !p.fault_fired {
                 p.fault_fired = true;
                 match f.mode {
                     FaultMode::Errno(e) => return Decision::Fail(e),
@@ -522,6 +534,43 @@ pub unsafe extern "C" fn munmap(addr: *mut c_void, len: size_t) -> c_int {
         return 0;
     }
     libc::syscall(libc::SYS_munmap, addr, len) as c_int
+}
+
+fn sleep_point() -> bool {
+    let sched = PLAN
+        .try_with(|c| c.try_borrow().ok().and_then(|p| p.as_ref().and_then(|p| p.sched)))
+        .ok()
+        .flatten();
+    match sched {
+        Some(s) => {
+            // time is owned by the scheduler: a sleep is a scheduling point that returns at once
+            let _ = s.io_point(Kind::Sleep, -1, 0, 0);
+            true
+        }
+        None => false,
+    }
+}
+
+#[no_mangle]
+pub unsafe extern "C" fn nanosleep(req: *const libc::timespec, rem: *mut libc::timespec) -> c_int {
+    if sleep_point() {
+        return 0;
+    }
+    libc::syscall(libc::SYS_nanosleep, req, rem) as c_int
+}
+
+#[no_mangle]
+pub unsafe extern "C" fn clock_nanosleep(clock: libc::clockid_t, flags: c_int, req: *const libc::timespec, rem: *mut libc::timespec) -> c_int {
+    if sleep_point() {
+        return 0;
+    }
+    // clock_nanosleep returns the error number directly
+    let r = libc::syscall(libc::SYS_clock_nanosleep, clock, flags, req, rem);
+    if r == 0 {
+        0
+    } else {
+        *libc::__errno_location()
+    }
 }
 
 #[no_mangle]
